@@ -254,7 +254,15 @@ def dup_case(ctx, k):
         ctx.count("duplicate_path_shape:" + shape)
         if shape == "two-spellings":
             # one file under two spellings
-            other = rng.choice(["./dup.fastq", "sub/../dup.fastq", ".//dup.fastq", os.path.join(d, "dup.fastq")])
+            other = rng.choice(["./dup.fastq", "sub/../dup.fastq", ".//dup.fastq", os.path.join(d, "dup.fastq"), "link.fastq", "sublink/dup.fastq"])
+            if other == "link.fastq":
+                # a symbolic link to the file
+                if not os.path.lexists(os.path.join(d, "link.fastq")):
+                    os.symlink("dup.fastq", os.path.join(d, "link.fastq"))
+            elif other == "sublink/dup.fastq":
+                # the same directory under a second, symbolically linked name
+                if not os.path.lexists(os.path.join(d, "sublink")):
+                    os.symlink(".", os.path.join(d, "sublink"))
             if rng.random() < 0.5:
                 argv = ad["argv"] + ["-m", "12", "--too-short-output", other, "-o", "dup.fastq", "--json", "rep.json"] + inputs
                 want_n = len(recs)
